@@ -179,6 +179,12 @@ def run(ctx):
             ctx.check(ok, "GUARD", f"{sv.qualname} / GUARD / every lmfit parameter gets min = 0", where,
                       "parameters[name].min = 0 in the loop that adds the parameter, unconditionally",
                       "not every created lmfit parameter is bounded below by 0")
+            # ... and keeps it: no later store gives a parameter (the multiplier is the last one) another lower bound
+            for e in st:
+                if e.value != T.ZERO:
+                    ctx.violation("GUARD", f"{sv.qualname} / GUARD / no lmfit parameter's lower bound is reset", ctx.where(sv, e.node),
+                                  f"`{sv.module.line(e.node.lineno)}` sets the lower bound of an lmfit parameter to {T.show(e.value)[:40]} after it was bounded by 0: "
+                                  "the minimisation then runs over candidates with a negative tension or a negative multiplier, which the statement excludes")
         elif bk == "lsq_linear":
             ok = False
             for nm, e, mp, bb in used:
@@ -208,6 +214,10 @@ def run(ctx):
                               f"method='{bk}' builds its system with {augname.split('.')[-1]}, which appends no multiplier; solve nevertheless strips the "
                               f"last entry, i.e. drops a real tension (and the back-end does not impose mean one)")
 
+    ctx.clause("the equations minimised are those of the last build")
+    rules.fresh_build(ctx, "force")
+
+
 
 _P = "forsys/fmatrix.py"
 PINNED = [
@@ -216,6 +226,7 @@ PINNED = [
     ("ones row sized by the junction rows", _P, "        total_edges = mprime.shape[1]\n        total_vertices = mprime.shape[0]", "        total_edges = mprime.shape[0]\n        total_vertices = mprime.shape[1]"),
     ("multiplier column of zeros", _P, "cMatrix = np.array([1.] * total_vertices + [0.] * (total_borders * 2) + [0.])", "cMatrix = np.array([0.] * total_vertices + [0.] * (total_borders * 2) + [0.])"),
     ("multiplier column ends in 1", _P, "cMatrix = np.array([1.] * total_vertices + [0.] * (total_borders * 2) + [0.])", "cMatrix = np.array([1.] * total_vertices + [0.] * (total_borders * 2) + [1.])"),
+    ("lmfit multiplier unbounded after the loop", _P, "                    parameters[naming].min = 0\n", "                    parameters[naming].min = 0\n                parameters[naming].min = -np.inf\n"),
     ("lmfit parameters unbounded", _P, "                    parameters[naming].min = 0\n", ""),
     ("lmfit bound only for the first parameter", _P, "                    parameters[naming].min = 0\n", "                    if index == 0:\n                        parameters[naming].min = 0\n"),
     ("lsq_linear unbounded below", _P, "bounds=(0.0, np.inf))", "bounds=(-np.inf, np.inf))"),
